@@ -1162,8 +1162,15 @@ def run_history(ctx, G, quick, has_dot):
                     state['log'].append('update_vertex_number(%d)' % t)
                 elif op == 'reread':
                     fmt = r.choice(inhouse[ty])
-                    g = state['g'] = G.readGraph(io.StringIO(impl_write(G, g, ty, fmt)), ty, fmt)
-                    state['log'].append('written as %s and read back; the object read is edited from here on' % fmt)
+                    text = impl_write(G, g, ty, fmt)
+                    extra = 0
+                    if fmt in ('kthlist', 'dimacs') and r.random() < 0.6:
+                        # a file as people write them: several comment lines before the data (the object read from it is written again)
+                        extra = r.randint(1, 3)
+                        text = ''.join('c comment line %d of a hand-written header\n' % (i + 1) for i in range(extra)) + text
+                    g = state['g'] = G.readGraph(io.StringIO(text), ty, fmt)
+                    state['log'].append('written as %s%s and read back; the object read is edited from here on'
+                                        % (fmt, ' with %d more comment lines in front' % extra if extra else ''))
             ctx.tally('history operations before a write', str(len(state['log'])) if len(state['log']) < 10 else '>=10')
             return state['g']
         for _ in range(r.randint(2, 5)):
